@@ -1699,7 +1699,11 @@ func (x Expr) FirstFound(data any) (any, bool) {
 			}
 		case *Proc:
 			if int(fi) == len(x)-1 { // last one
-				return tf.Procedure.First(prev), true
+				// A nil from First means no match for this node, another
+				// node may still have one.
+				if first := tf.Procedure.First(prev); first != nil {
+					return first, true
+				}
 			} else {
 				got := tf.Procedure.Get(prev)
 				for i := len(got) - 1; 0 <= i; i-- {
